@@ -44,6 +44,17 @@ type Pkg struct {
 	VarDecl []*ast.ValueSpec
 }
 
+// declares: the package scope declares this name, which therefore shadows a
+// predeclared identifier of the same spelling (func max, func new, type byte,
+// var nil ... are all legal Go).
+func (p *Pkg) declares(name string) bool {
+	if p == nil {
+		return false
+	}
+	_, v := p.Vars[name]
+	return p.Funcs[name] != nil || p.Types[name] != nil || v || p.Consts[name]
+}
+
 // Prog is the set of translated packages.
 type Prog struct {
 	Fset *token.FileSet
@@ -73,7 +84,7 @@ func strip(e ast.Expr) ast.Expr {
 func (t Type) named() (string, string, bool) {
 	switch e := strip(t.E).(type) {
 	case *ast.Ident:
-		if isBuiltinType(e.Name) {
+		if isBuiltinType(e.Name) && !(prog.Pkgs[t.Pkg] != nil && prog.Pkgs[t.Pkg].Types[e.Name] != nil) {
 			return "", e.Name, false
 		}
 		return t.Pkg, e.Name, true
